@@ -148,6 +148,17 @@ pub fn expected(e: &E, minimal: bool) -> Option<IdedExpr> {
             ided(Expr::Map(MapExpr { entries }))
         }
         E::Call(n, r, args) => {
+            // a call that has a macro's name, receiver-presence and arity *is* that macro (the generator writes
+            // macros as E::Macro / E::Has); every other shape is an ordinary call, whatever its name
+            let is_macro_shape = match (n.as_str(), r.is_some(), args.len()) {
+                ("has", false, 1) => true,
+                ("all" | "exists" | "exists_one" | "existsOne" | "filter", true, 2) => true,
+                ("map", true, 2 | 3) => true,
+                _ => false,
+            };
+            if is_macro_shape {
+                return None;
+            }
             let t = match r {
                 Some(r) => Some(x(r)?),
                 None => None,
@@ -736,9 +747,27 @@ pub fn run(r: &mut Runner) {
         }
         r.sweep("prefix-runs-1-to-6", cases, check);
     }
+    {
+        // macro names in every call shape that is *not* the macro: plain calls that keep receiver and arguments
+        let a = || E::var("a");
+        let sel = || E::Select(b(E::var("a")), "f".into());
+        let mut cases = vec![];
+        for name in ["has", "all", "exists", "exists_one", "existsOne", "map", "filter"] {
+            for recv in [None, Some(E::var("x")), Some(E::bin(Op::Add, E::var("x"), E::Lit(V::Int(1))))] {
+                for args in [vec![], vec![a()], vec![sel()], vec![a(), E::var("c")], vec![a(), E::var("c"), E::var("d")], vec![a(), E::var("c"), E::var("d"), E::var("e")]] {
+                    let t = E::Call(name.to_string(), recv.clone().map(b), args);
+                    for mode in 0..2u8 {
+                        cases.push(Case { tree: t.clone(), mode, seps: vec![] });
+                    }
+                }
+            }
+        }
+        r.sweep("macro-names-in-other-call-shapes", cases, check);
+    }
     let mut pool = Pool::c02();
     pool.raw_literals = false;
-    pool.funcs = ["f", "g", "size", "contains", "startsWith", "h1"].iter().map(|s| s.to_string()).collect();
+    // macro names too: in any shape other than the macro's own they are ordinary calls
+    pool.funcs = ["f", "g", "size", "contains", "startsWith", "h1", "has", "all", "exists", "exists_one", "existsOne", "map", "filter"].iter().map(|s| s.to_string()).collect();
     pool.vars = ["a", "b", "c", "x"].iter().map(|s| s.to_string()).collect();
     let n = r.tier.n(20_000, 1_000_000);
     r.random(
